@@ -1461,6 +1461,16 @@ def run_direct(pname: str, prof: Profile, root: Any, interner: Interner,
             reach: set[int] = set()
             for rt in bg.roots:
                 reach |= need(rt, lambda kd: kd not in prof.skip_kinds)
+            # inside a function body, too, a cached mapper maps each node once: the
+            # callee mapper is one per body (all return values), not one per result
+            if cached:
+                twice = [o for o in bg.objs if ncount.get(id(o), 0) > 1]
+                if twice and not res["variant"]["extra"]:
+                    res["findings"].append({
+                        "clause": "OncePerKey:function_body_node_mapped_twice",
+                        "nodekind": type(twice[0]).__name__,
+                        "what": f"{type(twice[0]).__name__} in a function body was mapped "
+                                f"{ncount[id(twice[0])]} times (by several callee mappers)"})
             missing = [i for i in sorted(reach) if tot[bg.cls[i - 1]] == 0]
             if missing and fcount.get(id(f), 0) > 0:
                 res["findings"].append({
